@@ -81,3 +81,14 @@ Fixpoint judge_hist_go (s : hst) (steps : list (hop * list ty)) : nat :=
 
 Definition judge_hist (c : list ty * list (hop * list ty)) : nat :=
   judge_hist_go (hinit (fst c)) (snd c).
+
+(* `b in a` (Types/TypeElem.v): read-backs of the list and of the element after UnifyListElement.
+   0: as the model; 2: differ (clash status or types) *)
+From LV Require Import Types.TypeElem.
+Definition judge_elem (c : ty * ty * ty * ty) : nat :=
+  let '(a, b, ra, rb) := c in
+  let '(ma, mb) := unify_list_element a b in
+  let mbad := has_bad ma || has_bad mb in
+  let rbad := has_bad ra || has_bad rb in
+  if mbad || rbad then (if mbad && rbad then 0 else 2)
+  else if teqb ma ra && teqb mb rb then 0 else 2.
